@@ -76,6 +76,9 @@ type Endpoint struct {
 	OnWrite   func(w WriteRec) // called in the writer's goroutine after logging
 	ReadCalls int
 	ShortRead bool // TCP: Read returns at most len(p) of the injected segment (always true) ...
+	Linger    *int
+	Discarded []WriteRec // SetLinger(0): writes of the instant of Close, which the kernel never sent
+	OnDiscard func(w WriteRec)
 }
 
 type UDPConn struct{ *Endpoint }
@@ -242,11 +245,51 @@ func (e *Endpoint) Close() error {
 	}
 	e.Closed = true
 	e.q.Close()
+	if e.Linger != nil && *e.Linger == 0 && e.Kind == "tcp-dial" {
+		for _, w := range e.Writes {
+			if w.T == mc.Now() {
+				e.Discarded = append(e.Discarded, w)
+				if e.OnDiscard != nil {
+					e.OnDiscard(w)
+				}
+			}
+		}
+	}
 	return nil
 }
 
 func (e *Endpoint) LocalAddr() Addr               { return e.Local }
 func (e *Endpoint) RemoteAddr() Addr              { return e.Remote }
 func (e *Endpoint) SetDeadline(t time.Time) error { return nil }
+
+// Socket options and the rest of the net.UDPConn / net.TCPConn surface a change to the library may
+// start to use: accepted, without effect on the virtual network - except SetLinger(0), see Close.
+func (e *Endpoint) SetReadDeadline(t time.Time) error        { return nil }
+func (e *Endpoint) SetWriteDeadline(t time.Time) error       { return nil }
+func (e *Endpoint) SetReadBuffer(bytes int) error            { return nil }
+func (e *Endpoint) SetWriteBuffer(bytes int) error           { return nil }
+func (e *Endpoint) SetKeepAlive(keepalive bool) error        { return nil }
+func (e *Endpoint) SetKeepAlivePeriod(d time.Duration) error { return nil }
+func (e *Endpoint) SetNoDelay(noDelay bool) error            { return nil }
+func (e *Endpoint) CloseRead() error                         { return nil }
+func (e *Endpoint) CloseWrite() error                        { return nil }
+func (e *Endpoint) ReadFrom(b []byte) (int, Addr, error) {
+	n, a, err := e.ReadFromUDP(b)
+	return n, a, err
+}
+func (e *Endpoint) WriteTo(b []byte, a Addr) (int, error) {
+	u, _ := a.(*UDPAddr)
+	return e.write(b, u)
+}
+
+// SetLinger(0) makes the kernel throw away what Write has accepted but not yet transmitted when the
+// connection is closed, and abort it with a reset. The virtual network models that: the frames
+// written at the very instant of the Close (no time has passed in which they could have left) are
+// reported as discarded (Discarded is filled, OnDiscard called), and scenarios treat them as never
+// having reached the peer.
+func (e *Endpoint) SetLinger(sec int) error {
+	e.Linger = &sec
+	return nil
+}
 
 var _ = io.EOF
